@@ -32,8 +32,30 @@ var (
 	vCleanups  []func()
 )
 
+// vSharedFile is the first file name handed out; a crash child process
+// (VERIF_FILE set) reuses its parent's name.
+var vSharedFile string
+
 // vTempFile returns the name of a fresh private file (removed after the run).
 func vTempFile() string {
+	if f := os.Getenv("VERIF_FILE"); f != "" && vSharedFile == "" {
+		vSharedFile = f
+		return f
+	}
+	d, err := os.MkdirTemp("", "verif-native-")
+	if err != nil {
+		panic(vDesync{"tempdir: " + err.Error()})
+	}
+	vCleanups = append(vCleanups, func() { os.RemoveAll(d) })
+	if vSharedFile == "" {
+		vSharedFile = d + "/db.sqlite"
+		return vSharedFile
+	}
+	return d + "/db.sqlite"
+}
+
+// vTempFile2 returns a fresh private file that is never shared with a crash child.
+func vTempFile2() string {
 	d, err := os.MkdirTemp("", "verif-native-")
 	if err != nil {
 		panic(vDesync{"tempdir: " + err.Error()})
